@@ -47,6 +47,10 @@ def class_state_fp():
                 out.append((T.__name__, name, tuple(sorted((getattr(k, "__name__", repr(k)), _fn_name(f)) for k, f in reg.items()))))
             elif not callable(v) and not name.startswith("__"):
                 out.append((T.__name__, name, repr(v)))
+    for T in (Parser.TreeBuilder, Parser.OFXTree, Aggregate):
+        for name, v in sorted(vars(T).items()):
+            if not callable(v) and not isinstance(v, (classmethod, staticmethod, property)) and not name.startswith("__"):
+                out.append((T.__name__, name, repr(v)[:200]))
     for mod in (utils, Types, header, Parser):
         for name, v in sorted(vars(mod).items()):
             if isinstance(v, (dict, list, tuple, set, str, int)) and not name.startswith("__"):
@@ -127,6 +131,15 @@ def h_parse(ctx, n):
         tb.feed(msg)
         root = tb.close()
         outs.append((hdr.version, msg, root[0].text))
+        if k == 0:
+            # failing inputs in between: a truncated body, a wrong end tag, text after an end tag
+            for bad in ("<OFX><A>1</A>", "<OFX><A></B></OFX>", "<OFX></OFX>x"):
+                tb2 = make_treebuilder(Parser.TreeBuilder, ctx.mode == "sym")
+                try:
+                    tb2.feed(bad)
+                    tb2.close()
+                except (SyntaxError, AssertionError, IndexError):
+                    pass
     items_after = list(src.items) if hasattr(src, "items") else src.getvalue()
     ctx.check("parsing does not modify the source bytes", len(items_before) == len(items_after) and all([a is b or a == b for a, b in zip(items_before, items_after)]) if not isinstance(items_before, bytes) else items_before == items_after)
     ctx.check("parsing twice gives the same header, body and tree", outs[0][0] == outs[1][0] and outs[0][1] == outs[1][1] and outs[0][2] == outs[1][2])
@@ -184,9 +197,12 @@ def instances(tier, seed):
         import random
         rnd = random.Random(seed)
         classes = rnd.sample(classes, min(40, len(classes)))
+    special = [K for K in ofxgen.all_classes() if ofxgen.renamed_attrs(K)]
+    classes = special + [K for K in classes if K not in special]
     for K in classes:
         n = K.__name__
         els = c03.pick_elements(K, False, seed)[:3]
+        els = [a for a in ofxgen.renamed_attrs(K) if a in [x for x, _ in c03.elements_of(K)]] + els
         if els:
             mk(f"convert[{n}]", "convert", dict(cls=n, attrs=els))
         mk(f"serialize[{n}]", "serialize", dict(cls=n))
